@@ -63,6 +63,7 @@ type vfTokSpec struct {
 	WrongAud  bool          `json:"wrong_aud,omitempty"`
 	WrongIss  bool          `json:"wrong_iss,omitempty"`
 	Extra     map[string]interface{} `json:"extra,omitempty"`
+	NoFlavour bool          `json:"no_flavour,omitempty"` // no provider-specific extra claims
 }
 
 type vfMinted struct {
@@ -114,6 +115,34 @@ func vfMintToken(issuer, clientID string, spec vfTokSpec, r *vfRand) vfMinted {
 	}
 	if spec.Roles != nil {
 		claims["roles"] = spec.Roles
+	}
+	// claims real providers add next to (or instead of) the ones the middleware is documented to read: other names for
+	// the user (Azure AD / ADFS / Keycloak), verification marks, hosted domains, session and tenant identifiers.  The
+	// second identity they name is NOT the token's e-mail: nothing of it may ever be used
+	if r != nil && !spec.NoFlavour {
+		shadow := fmt.Sprintf("shadow%d@example.com", r.intn(90)+10)
+		var fl map[string]interface{}
+		switch r.intn(9) {
+		case 0:
+			fl = map[string]interface{}{"preferred_username": shadow, "upn": shadow, "unique_name": shadow, "tid": "9188040d-6c67-4c5b-b112-36a304b66dad",
+				"oid": "00000000-0000-0000-66f3-3332eca7ea81", "ver": "2.0", "name": "Shadow User"}
+		case 1:
+			fl = map[string]interface{}{"preferred_username": shadow, "email_verified": false, "session_state": "c7e1d6f0", "sid": "c7e1d6f0", "typ": "ID",
+				"resource_access": map[string]interface{}{"account": map[string]interface{}{"roles": []interface{}{"admin", "manage-account"}}}}
+		case 2:
+			fl = map[string]interface{}{"email_verified": "false", "hd": "example.com", "at_hash": "HK6E_P6Dh8Y93mRNtsDB1Q", "emails": []interface{}{shadow},
+				"https://example.com/email": shadow, "given_name": "Shadow", "locale": "en"}
+		case 3: // namespaced custom claims (Auth0 rules, ADFS / WS-Federation claim types): other applications' business
+			fl = map[string]interface{}{"https://other-app.example.org/roles": []interface{}{"admin", "dev"}, "https://other-app.example.org/groups": []interface{}{"admin", "staff"},
+				"http://schemas.microsoft.com/ws/2008/06/identity/claims/role": []interface{}{"admin"}, "http://schemas.example.org/ws/claims/groups": []interface{}{"staff", "admin"},
+				"http://schemas.xmlsoap.org/ws/2005/05/identity/claims/emailaddress": shadow, "cognito:groups": []interface{}{"admin"}}
+		}
+		if len(fl) > 0 {
+			for k, v := range spec.Extra {
+				fl[k] = v
+			}
+			spec.Extra = fl
+		}
 	}
 	for k, v := range spec.Extra {
 		claims[k] = v
